@@ -52,7 +52,11 @@ struct SolReadResult {
   struct EasySuf { std::string name, table; int kind = 0; std::vector<double> values; };
   std::vector<EasySuf> easy_sufs;
   std::vector<int> easy_vperm;              // caller's column j is written at NL position easy_vperm[j]
+  std::string consumer_rejected;            // the consumer read a whole vector and then set an error with this text (first time)
+  int consumer_rejected_code = 0;           // ... and this code
 };
+
+const char* consumer_message(int k);
 
 SolReadResult read_sol(const std::string& path, const SolReadConfig& cfg);
 
